@@ -198,11 +198,11 @@ func hex4(vs []uint16) string {
 
 // JA4Ref is the reference value with the parts the text leaves open.
 type JA4Ref struct {
-	A          string // 10 characters; ALPN part may be undetermined
-	ALPNOpen   bool   // last two characters of A are not determined by the text
-	B          []string // admissible values for part b
-	C          []string // admissible values for part c
-	CPlain     string
+	A        string   // 10 characters; ALPN part may be undetermined
+	ALPNOpen bool     // last two characters of A are not determined by the text
+	B        []string // admissible values for part b
+	C        []string // admissible values for part c
+	CPlain   string
 }
 
 func (h *RefHello) JA4() JA4Ref {
